@@ -259,7 +259,7 @@ class _Gen:
             elif name == 'solver':
                 if heavy:
                     # other solver classes rarely (each costs a compile); '!' = a fresh, equal instance
-                    pal = ['cg40', 'cg41', 'cg500', 'cg40!', 'cg500!', 'cg40', 'cg41', 'cg500'] + (['gm30', 'bi30'] if rng.random() < 0.15 else [])
+                    pal = ['cg40', 'cg41', 'cg500', 'cg40!', 'cg500!', 'cg40', 'cg41', 'cg500'] + ((['gm30', 'bi30'] if 'solver_fail' in self.faults else ['gm30']) if rng.random() < 0.15 else [])
                     if not self.sw['no_cg1']:
                         pal += ['cg1', 'cg1', 'cg1!']
                     kw[name] = rng.choice(pal)
